@@ -6,40 +6,8 @@
 From Coq Require Import List Bool NArith ZArith Arith Lia.
 From BV Require Import Lib.PyStr Lib.Decimal Lib.Types Lib.Regex Lib.RegexParse Model.V2 Gen.Tables
   Model.PatAst Proofs.DecimalFacts Proofs.RegexFacts.
+From BV Require Export Proofs.PatPartsBase.
 Import ListNotations.
-
-(* ------------------------------------------------------------------ part names *)
-Definition P_YYYY := [89;89;89;89]%N.
-Definition P_YY := [89;89]%N.
-Definition P_0Y := [48;89]%N.
-Definition P_GGGG := [71;71;71;71]%N.
-Definition P_GG := [71;71]%N.
-Definition P_0G := [48;71]%N.
-Definition P_Q := [81]%N.
-Definition P_MM := [77;77]%N.
-Definition P_0M := [48;77]%N.
-Definition P_DD := [68;68]%N.
-Definition P_0D := [48;68]%N.
-Definition P_JJJ := [74;74;74]%N.
-Definition P_00J := [48;48;74]%N.
-Definition P_WW := [87;87]%N.
-Definition P_0W := [48;87]%N.
-Definition P_UU := [85;85]%N.
-Definition P_0U := [48;85]%N.
-Definition P_VV := [86;86]%N.
-Definition P_0V := [48;86]%N.
-Definition P_MAJOR := [77;65;74;79;82]%N.
-Definition P_MINOR := [77;73;78;79;82]%N.
-Definition P_PATCH := [80;65;84;67;72]%N.
-Definition P_BUILD := [66;85;73;76;68]%N.
-Definition P_BLD := [66;76;68]%N.
-Definition P_TAG := [84;65;71]%N.
-Definition P_PYTAG := [80;89;84;65;71]%N.
-Definition P_NUM := [78;85;77]%N.
-Definition P_INC0 := [73;78;67;48]%N.
-Definition P_INC1 := [73;78;67;49]%N.
-
-Ltac in_list := repeat first [left; reflexivity | right].
 
 (* ------------------------------------------------------------------ 1. round trip on the AST layer *)
 Theorem roundtrip_ast : forall v p tail f n0,
@@ -153,18 +121,6 @@ Proof.
 Qed.
 
 (* ------------------------------------------------------------------ 2b. finite parts *)
-Fixpoint zrange (lo : Z) (cnt : nat) : list Z :=
-  match cnt with O => [] | S k => lo :: zrange (lo + 1) k end.
-Lemma in_zrange : forall cnt lo z, (lo <= z < lo + Z.of_nat cnt)%Z -> In z (zrange lo cnt).
-Proof.
-  induction cnt as [|k IH]; intros lo z H; [lia|]. cbn [zrange In].
-  destruct (Z.eq_dec lo z) as [->|Hne]; [left; reflexivity|right]. apply IH. lia.
-Qed.
-
-(* text of a part for an integer field value: PART_FORMATS[name](z) *)
-Definition fmtpart (name : list N) (z : Z) : list N :=
-  match assoc name PART_FORMATS with Some k => apply_fmt k (FInt z) | None => [] end.
-
 (* calendar parts with the range of field values considered: (part, first value, number of values).
    Years are 1000..9999 (the regexes have four digits); the two-digit forms YY/GG are considered for
    2001..2099 only (see yy_century_refuted); weeks %W/%U for 0..52 (see week53_refuted). *)
